@@ -20,10 +20,7 @@ Proof. exact value_at_spec. Qed.
 Print Assumptions C22_value_at.
 
 Example C22_nonvacuous :
-  fired 10 [(1, 1 # 2); (4, 1)] 3 = [(0 + (1 - 0), 1 # 2); (0 + (1 - 0) + (4 - 1), 1);
-                                      (0 + (1 - 0) + (4 - 1) + (1 - 0 + (10 - 4)), 1 # 2); (0 + (1 - 0) + (4 - 1) + (1 - 0 + (10 - 4)) + (4 - 1), 1);
-                                      (0 + (1 - 0) + (4 - 1) + (1 - 0 + (10 - 4)) + (4 - 1) + (1 - 0 + (10 - 4)), 1 # 2);
-                                      (0 + (1 - 0) + (4 - 1) + (1 - 0 + (10 - 4)) + (4 - 1) + (1 - 0 + (10 - 4)) + (4 - 1), 1)] /\
-  Qeq_bool (fst (nth 4 (fired 10 [(1, 1 # 2); (4, 1)] 3) (0, 0))) 21 = true /\
+  map fst (fired 10 [(1, 1 # 2); (4, 1)] 3) = [1; 4; 11; 14; 21; 24] /\
+  map snd (fired 10 [(1, 1 # 2); (4, 1)] 3) = [1 # 2; 1; 1 # 2; 1; 1 # 2; 1] /\
   Qeq_bool (value_at 1 (fired 10 [(1, 1 # 2); (4, 1)] 3) 12) (1 # 2) = true.
 Proof. repeat split; vm_compute; reflexivity. Qed.
